@@ -178,10 +178,36 @@ def coqc_file(rel, timeout=600):
 ALLOWED_AXIOMS: set[str] = set()  # intended: every property theorem closed under the global context
 
 
+def generated_deps(rel: str) -> list[str]:
+    """Names of the Generated/Gen*.v files a development file depends on, transitively (through its Require lines)."""
+    seen, todo, gens = set(), [rel], set()
+    while todo:
+        f = todo.pop()
+        if f in seen or not (COQ / f).exists():
+            continue
+        seen.add(f)
+        body = strip_comments((COQ / f).read_text())
+        for d in re.findall(r"Require\s+(?:Import|Export)?\s*([\w.\s]+?)\.\s", body):
+            for name in d.split():
+                name = name.replace("Sedpack.", "")
+                if name.startswith("Generated."):
+                    gens.add(name.split(".", 1)[1])
+                elif name.startswith(("Model.", "Proofs.", "Properties.")):
+                    todo.append(name.replace(".", "/") + ".v")
+    return sorted(gens)
+
+
 def check_property_file(pid: str):
-    """Build the dependencies of Properties/<pid>.v, compile it, and account for every theorem
-    in it.  Returns dict(obligations, discharged, theorems, assumptions).  Raises Broken."""
+    """Regenerate every kernel the property file depends on (transitively) from the current source, build the dependencies of
+    Properties/<pid>.v, compile it, and account for every theorem in it.
+    Returns dict(obligations, discharged, theorems, assumptions).  Raises Broken."""
     rel = f"Properties/{pid}.v"
+    from translator import pygen
+    deps = generated_deps(rel)
+    tr = pygen.regenerate(REPO, COQ / "Generated", only=deps)
+    for g in deps:
+        if tr.get(g):
+            raise Broken(f"translator: {g} (a kernel the theorems of {pid} depend on can no longer be regenerated from the source)", tr[g])
     src = (COQ / rel).read_text()
     body = strip_comments(src)
     theorems = re.findall(r"^\s*Theorem\s+(\w+)", body, re.M)
